@@ -20,7 +20,7 @@ def run(m, chk):
         "knot vector; the degree setter dispatches times>0 to degree_increase(times) and times<0 to degree_decrease(-times); degree_increase / apply commit last; no divisor on the elevation path is a bare node "
         "parameter (interior knot 0); the committed state depends on times, knot vector, points and weights. That elevation preserves the function and raises multiplicities by exactly t is not decided."
     )
-    chk.decides = ["ARG-RANGE (degree_increase / degree_decrease refuse no admissible times before trying)", "LOOP-ACCUMULATE (the error handed to the gate is not overwritten per component in a loop)", "GATE-TOL", "N", "ARG-FLOW", "X-ESCAPE", "DISPATCH(degree setter)", "COMMIT-LAST", "D", "DEP-MAY", "fresh knot-vector copy", 'PRECHECK', 'MEMO-KEY (no value-keyed memoisation on the elevation / reduction path)', 'WEIGHT-HOMOG', 'OPEN-NODES (the fit behind degree_decrease integrates with open nodes)']
+    chk.decides = ["DEHOMOG-PAIR (points divided by a list of weights are stored with exactly those weights)", "ARG-RANGE (degree_increase / degree_decrease refuse no admissible times before trying)", "LOOP-ACCUMULATE (the error handed to the gate is not overwritten per component in a loop)", "GATE-TOL", "N", "ARG-FLOW", "X-ESCAPE", "DISPATCH(degree setter)", "COMMIT-LAST", "D", "DEP-MAY", "fresh knot-vector copy", 'PRECHECK', 'MEMO-KEY (no value-keyed memoisation on the elevation / reduction path)', 'WEIGHT-HOMOG', 'OPEN-NODES (the fit behind degree_decrease integrates with open nodes)']
     chk.not_decided = ["elevation preserves the function", "multiplicities raised by exactly t", "reduction is the exact inverse"]
     tolerance_gate(r, chk)
     rule_n(r, chk)
@@ -90,3 +90,6 @@ def run(m, chk):
 
     arg_range(r, chk, C + "degree_decrease", "times", lambda p: range(1, p + 1))
     arg_range(r, chk, C + "degree_increase", "times", lambda p: range(1, 4))
+    from .extra import dehomog_pair
+
+    dehomog_pair(r, chk, ["curves.Curve.fit_curve", "curves.BaseCurve.apply"], floor=2)
